@@ -248,7 +248,10 @@ func parseSentence(toks []Token) (*Sentence, error) {
 			return nil, p.errf(nt, "Theorem without a name")
 		}
 		s.Name = name
-		return s, checkBalanced(toks)
+		if err := checkBalanced(toks); err != nil {
+			return nil, err
+		}
+		return s, parseLemma(p, name)
 	case "Proof", "Qed":
 		return s, atEnd()
 	case "typecheck":
@@ -328,4 +331,111 @@ var reservedCoq = map[string]bool{
 	"cofix": true, "discriminated": true, "else": true, "end": true, "exists": true, "exists2": true, "fix": true, "for": true,
 	"forall": true, "fun": true, "if": true, "in": true, "lazymatch": true, "let": true, "match": true, "multimatch": true,
 	"return": true, "then": true, "using": true, "where": true, "with": true, "λ": true, "mod": true,
+}
+
+// parseLemma checks the statement of a typing lemma as goose emits it under
+// -typecheck:
+//
+//	Theorem f_t: ⊢ f : T.          (functions)
+//	Theorem c_t Γ : Γ ⊢ c : T.     (constants)
+//
+// with T a GooseLang type: applications of type constructors to types, `*`
+// for products, `->` for arrows, parentheses, and the scope annotation %ht
+// right after a closing parenthesis. Anything else (a stray %, an operator, a
+// string, a number) is not a type Coq would accept here.
+func parseLemma(p *parser, name string) error {
+	if !strings.HasSuffix(name, "_t") {
+		return p.errf(p.peek(), "typing lemma %q is not named after a definition (<name>_t)", name)
+	}
+	subject := strings.TrimSuffix(name, "_t")
+	ctx := false
+	if p.isIdent("Γ") {
+		p.next()
+		ctx = true
+	}
+	if err := p.expectSym(":"); err != nil {
+		return err
+	}
+	if ctx {
+		if !p.isIdent("Γ") {
+			return p.errf(p.peek(), "typing lemma with a context binder must start with Γ")
+		}
+		p.next()
+	}
+	if err := p.expectSym("⊢"); err != nil {
+		return err
+	}
+	st := p.next()
+	if n, ok := identText(st); !ok || n != subject {
+		return p.errf(st, "typing lemma %s is about %s", name, st.String())
+	}
+	if err := p.expectSym(":"); err != nil {
+		return err
+	}
+	if err := p.lemmaArrow(); err != nil {
+		return err
+	}
+	if p.peek().Kind != TEOF {
+		return p.errf(p.peek(), "unexpected token in the type of typing lemma %s", name)
+	}
+	return nil
+}
+
+func (p *parser) lemmaArrow() error {
+	for {
+		if err := p.lemmaProd(); err != nil {
+			return err
+		}
+		if !p.isSym("->") {
+			return nil
+		}
+		p.next()
+	}
+}
+
+func (p *parser) lemmaProd() error {
+	for {
+		if err := p.lemmaApp(); err != nil {
+			return err
+		}
+		if !p.isSym("*") {
+			return nil
+		}
+		p.next()
+	}
+}
+
+func (p *parser) lemmaApp() error {
+	n := 0
+	for {
+		t := p.peek()
+		switch {
+		case t.Kind == TIdent:
+			if reservedCoq[t.Text] {
+				return p.errf(t, "reserved word in a type")
+			}
+			p.next()
+		case t.Kind == TSym && t.Text == "(":
+			p.next()
+			if err := p.lemmaArrow(); err != nil {
+				return err
+			}
+			if err := p.expectSym(")"); err != nil {
+				return err
+			}
+			if p.isSym("%") {
+				p.next()
+				sc := p.next()
+				if txt, ok := identText(sc); !ok || txt != "ht" {
+					return p.errf(sc, "scope annotation other than %%ht in a type")
+				}
+			}
+		default:
+			if n == 0 {
+				return p.errf(t, "expected a type")
+			}
+			return nil
+		}
+		n++
+	}
 }
